@@ -40,6 +40,8 @@ POSITIONAL = {
     'three-clauses': ('SELECT a, %s AS p FROM #t WHERE %s < a ORDER BY a * %s', 3),
     'subquery-first': ('SELECT a, %s - a AS q FROM #t WHERE a IN (SELECT b - %s FROM #t) OR a = %s', 3),
     'order-expr': ('SELECT a, b FROM #t ORDER BY (a - %s) * (b - %s) DESC', 2),
+    'target-and-from-subquery': ('SELECT a + %s AS r FROM (SELECT b AS a FROM #t WHERE b > %s) WHERE a < %s', 3),
+    'target-and-from-subquery-2': ('SELECT %s - a AS r, %s AS q FROM (SELECT a - %s AS a FROM #t)', 3),
     'group-having': ('SELECT a IS NULL AS k, sum(a + %s) AS s FROM #t GROUP BY 1 HAVING count(b) > %s', 2),
 }
 NAMED = {
@@ -334,3 +336,50 @@ def executemany(row: Tuple[Optional[int], Optional[int]], k: int, p0: Optional[i
     if got[0] != want[0] or not same_rows(got[1], want[1]):
         return 'executemany-result'
     return 'ok'
+
+
+@cond('C09.bind.from-expression', quick=180,
+      bounds='"SELECT a - %s AS r FROM b > %s WHERE a < %s" over the default table of <=2 rows (symbolic ints or NULL): placeholders '
+             'in the targets, in the FROM expression and in WHERE bind in textual order',
+      symbolic='parameter values, cells, row count',
+      params={'rows': List[Tuple[Optional[int], Optional[int]]], 'p0': int, 'p1': int, 'p2': int})
+def bind_from_expression(rows, p0, p1, p2):
+    assume(len(rows) <= 2)
+    text = 'SELECT a - %s AS r FROM b > %s WHERE a < %s'
+    mk = lambda: connect(postings=_UTable('postings', COLS, list(rows)))  # noqa: E731
+    literal = substitute_placeholders(fresh_parse(text), (p0, p1, p2))
+    want = run_cursor(mk(), literal)
+    got = run_cursor(mk(), fresh_parse(text), (p0, p1, p2))
+    if got[0] != want[0] or not same_rows(got[1], want[1]):
+        return 'binding-order'
+    return 'ok'
+
+
+EQUAL_PARAMS = [1, True, D('1.00'), D('1.0'), D('1'), 0, False, D('0.00'), D('0')]
+
+
+@cond('C09.history.equal-params', quick=180,
+      bounds='the same statement text executed twice on one connection (one cursor or two) with parameter values that compare '
+             'equal but differ in type or precision (1, TRUE, 1.00, 1.0, 0, FALSE, 0.00): each result, with its datatypes and exact '
+             'decimal representation, equals the result of a fresh connection',
+      symbolic='(none)', enumerated='the two parameter values, cursor reuse', params={'i': int, 'j': int, 'reuse': bool})
+def history_equal_params(i, j, reuse):
+    first, second = pick(EQUAL_PARAMS, i), pick(EQUAL_PARAMS, j)
+    text = 'SELECT %s AS p, str(%s) AS s, %s IS NULL AS n FROM #t'
+
+    def run():
+        conn = connect(t=HTable('t', COLS, [(1, 2)]))
+        cur = conn.cursor()
+
+        def show(c):
+            return ([(d.name, d.datatype) for d in c.description], [[repr(v) for v in row] for row in c.fetchall()])
+        for value in (first, second):
+            c = cur if reuse else conn.cursor()
+            c.execute(text, (value, value, value))
+            got = show(c)
+            fresh = connect(t=HTable('t', COLS, [(1, 2)])).cursor()
+            fresh.execute(text, (value, value, value))
+            if got != show(fresh):
+                return 'result-depends-on-earlier-equal-parameters'
+        return 'ok'
+    return native(run)
